@@ -183,6 +183,22 @@ enum Inner {
 
 pub struct TcpStream {
     inner: Inner,
+    /// set on the accepted end of a connection that the simulated TPROXY rule diverted
+    orig_dst: Option<SocketAddr>,
+}
+
+// What getsockopt(SO_ORIGINAL_DST / IP6T_SO_ORIGINAL_DST) reports: every simulated stream shares
+// one token descriptor, so the answer is that of the stream accepted last (the only caller asks
+// synchronously, right after accept(), on a single-threaded runtime).
+static LAST_ACCEPTED_ORIG: Mutex<Option<SocketAddr>> = Mutex::new(None);
+
+/// nix facade: original destination of the stream accepted last (None = ENOENT)
+pub fn sim_original_dst(fd: RawFd) -> Option<Option<SocketAddr>> {
+    if fd == token_tcp_fd() {
+        Some(*LAST_ACCEPTED_ORIG.lock().unwrap())
+    } else {
+        None
+    }
 }
 
 impl std::fmt::Debug for TcpStream {
@@ -196,12 +212,17 @@ impl std::fmt::Debug for TcpStream {
 
 impl TcpStream {
     pub(crate) fn from_mem(m: tcp::MemEnd) -> Self {
-        TcpStream { inner: Inner::Mem(m) }
+        TcpStream { inner: Inner::Mem(m), orig_dst: None }
     }
     pub(crate) fn from_kernel(s: real_tokio::net::UnixStream, local: SocketAddr, peer: SocketAddr, id: u64) -> Self {
         TcpStream {
             inner: Inner::Kernel { s, local, peer, id },
+            orig_dst: None,
         }
+    }
+    pub(crate) fn with_original_dst(mut self, d: Option<SocketAddr>) -> Self {
+        self.orig_dst = d;
+        self
     }
     pub(crate) fn mem_end(&self) -> Option<&tcp::MemEnd> {
         match &self.inner {
@@ -228,6 +249,7 @@ impl TcpStream {
                 dst: a,
                 label: None,
                 chaos: None,
+                divert: None,
             })
             .await
             {
@@ -370,12 +392,14 @@ impl TcpListener {
     }
     pub async fn accept(&self) -> io::Result<(TcpStream, SocketAddr)> {
         let s = std::future::poll_fn(|cx| tcp::poll_accept(&self.addr, cx)).await?;
+        *LAST_ACCEPTED_ORIG.lock().unwrap() = s.orig_dst;
         let peer = s.peer_addr()?;
         Ok((s, peer))
     }
     pub fn poll_accept(&self, cx: &mut Context<'_>) -> Poll<io::Result<(TcpStream, SocketAddr)>> {
         match tcp::poll_accept(&self.addr, cx) {
             Poll::Ready(Ok(s)) => {
+                *LAST_ACCEPTED_ORIG.lock().unwrap() = s.orig_dst;
                 let peer = s.peer_addr()?;
                 Poll::Ready(Ok((s, peer)))
             }
@@ -462,6 +486,7 @@ impl TcpSocket {
             dst: addr,
             label: None,
             chaos: None,
+            divert: None,
         })
         .await
     }
